@@ -5,6 +5,7 @@ import Driver.Read
 import Driver.Frame
 import Driver.Text
 import Driver.Cap
+import Driver.Promise
 /-! `modeld`: one operation per line on stdin, one canonical result per line on stdout. -/
 open Driver
 
@@ -16,6 +17,7 @@ def dispatch (line : String) : String :=
   | "frame" :: rest => Driver.Frame.run rest
   | "text" :: rest => Driver.Text.run rest
   | "cap" :: rest => Driver.Cap.run rest
+  | "promise" :: rest => Driver.Promise.run rest
   | "build" :: rest => Driver.Read.runBuild rest
   | ["case", _] => "case"
   | _ => "bad-op"
